@@ -129,6 +129,23 @@ def _client_case(ops, impl):
             if r.startswith("do-hang"):
                 st["viol"].append((i, "C10", f"Do did not return although its response was delivered (h{t[5]})"))
             t = ["CL", "start", t[2], t[3], t[5]]
+        if t[1] == "startb":   # L2: Start suspended in its first Write; it returns at the next `release`
+            pend = f.get("ret") == "pending"
+            st["started"][t[4]] = {"id": t[2], "raw": t[3], "ok": pend, "writes": len(wr), "at": i, "pending": pend}
+            if any(w != t[3] for w in wr) or len(wr) > 1:
+                st["viol"].append((i, "C11", "Start wrote something other than the message once"))
+            wr = []
+        if t[1] == "release" and "sret" in f:
+            for h, s_ in st["started"].items():
+                if s_.get("pending"):
+                    s_["pending"] = False
+                    if f["sret"] != "ok":
+                        if h in st["calls"]:
+                            st["viol"].append((i, "C10", f"Start returned an error ({f['sret']}) after its handler h{h} had already "
+                                               "been invoked: the response arrived while Start was inside Connection.Write, "
+                                               "which then failed"))
+                        else:
+                            s_["ok"] = False
         if t[1] == "start":
             ok = f.get("ret") == "ok"
             if st["closed"] and (f.get("ret") != "client-closed" or wr):
@@ -447,14 +464,16 @@ PROPS = {
                      "Stun.C10.start_error_not_registered", "Stun.C10.invoked_xor_pending",
                      "Stun.C10.closed_no_invocation", "Stun.C10L2.step2_l1", "Stun.C10L2.run2_l1", "Stun.C10L2.k1_history",
                      "Stun.C10L2.k1_history_other_start_untouched", "Stun.C10L2.blocked_write_failure_alone",
-                     "Stun.Client.retransmit_split", "Stun.ClientProofs.run_spec", "Stun.ClientProofs.run_eq",
+                     "Stun.C10L2.f12_start_error_after_handler_ran", "Stun.C10L2.start_blocked_failure_alone",
+                     "Stun.Client.retransmit_split", "Stun.Client.start_split", "Stun.ClientProofs.run_spec", "Stun.ClientProofs.run_eq",
                      "Stun.ClientProofs.callback_spec", "Stun.ClientProofs.retransmit_spec"],
         "streams": ["client-hist"], "level": "proof", "predicate": pred_client("C10"),
         "tagsets": [["verif"], ["verif", "race"]],
         "rule": CLIENT_RULE + "; Client.Do with the response handled while Start is still inside Write and a callback that "
                 "takes 10 ms: Do must return, and only after the callback finished",
         "explanation": "full statement (exactly once, with a closed error on Close) is false on the unchanged tree: known "
-                       "finding F6; proved: at most once, never unstarted, exactly-once-or-still-registered. "
+                       "findings F6 (Close in flight) and F12 (Start returns an error after the handler ran, when the "
+                       "response overtakes a failing first Write); proved: at most once, never unstarted, exactly-once-or-still-registered. "
                        "Interleavings inside one event (L2, known finding K1) are not expressible at this level.",
     },
     "C11": {
